@@ -92,6 +92,32 @@ fn cases(thorough: bool) -> Vec<Case> {
                 expected: m(vec![("M", ck(&[val.clone(), val.clone()].concat()))]),
                 size: n,
             });
+            // descriptor layouts: the same transfers with standard descriptors closed, so the
+            // pipe ends land on descriptors 0/1/2 themselves
+            if [0usize, 1, 513, 1025].contains(&n) && (t, e) != (2, 100) {
+                for layout in [">&-", "<&-", "<&- >&-", "2>&-", "<&- >&- 2>&-"] {
+                    out.push(Case {
+                        script: format!("{{ x=$({g}); chk \"$x\"; }} {layout}"),
+                        expected: m(vec![("M", ck(&val))]),
+                        size: n,
+                    });
+                    out.push(Case {
+                        script: format!("{{ x=$({g} | cat 700); chk \"$x\"; }} {layout}"),
+                        expected: m(vec![("M", ck(&val))]),
+                        size: n,
+                    });
+                    out.push(Case {
+                        script: format!("{{ {g} | hsink; }} {layout}"),
+                        expected: m(vec![("M.2", hs(&data))]),
+                        size: n,
+                    });
+                    out.push(Case {
+                        script: format!("{{ {g} | cat | hsink 300; }} {layout}"),
+                        expected: m(vec![("M.3", hs(&data))]),
+                        size: n,
+                    });
+                }
+            }
             // here-document: body lines exactly as generated (must end with a newline)
             if t >= 1 && n <= 2049 {
                 let body = String::from_utf8(data.clone()).unwrap();
